@@ -104,7 +104,7 @@ def random_connected_graph(rng, nmin=1, nmax=6, multi=True):
 
 def random_divisor(rng, G, band=None, big=False):
     """stratified: number of indebted vertices, ties for the minimum, degree band relative to genus"""
-    n = G["n"]; g = genus(G)
+    n = G["n"]; g = max(0, genus(G))
     mag = rng.choice([2, 4, 8]) if not big else 2 ** rng.choice([20, 40, 62, 64, 70])
     D = [rng.randint(-mag, mag) for _ in range(n)]
     nd = rng.randint(0, n)
@@ -116,7 +116,7 @@ def random_divisor(rng, G, band=None, big=False):
     if band == "edge":   # many small debts, total degree just around the genus: verdicts are sensitive to exact reduction
         D = [rng.randint(-3, 3) for _ in range(n)]
         if n > 0:
-            j = rng.randrange(n); D[j] += rng.randint(0, g + 2) - sum(D)
+            j = rng.randrange(n); D[j] += rng.randint(0, max(0, g + 2)) - sum(D)
         return D
     tgt = None
     if band == "neg": tgt = rng.randint(-3, -1)
@@ -135,10 +135,26 @@ def random_divisor(rng, G, band=None, big=False):
 def build_impl_graph(G, rng=None):
     from chipfiring import CFGraph
     names = G["names"]; edges = [(names[a], names[b], k) for a, b, k in G["edges"]]
+    later = []
     if rng is not None:
-        edges = [(b, a, k) if rng.random() < 0.5 else (a, b, k) for a, b, k in edges]
+        # the same multigraph supplied in different ways: endpoint order, edge order, multiplicities split into
+        # repeated triples (merged by the constructor / add_edges) or added afterwards by separate add_edge calls
+        split = []
+        for a, b, k in edges:
+            while k >= 2 and rng.random() < 0.35:
+                part = rng.randint(1, k - 1); k -= part
+                (later if rng.random() < 0.4 else split).append((a, b, part))
+            split.append((a, b, k))
+        edges = [(b, a, k) if rng.random() < 0.5 else (a, b, k) for a, b, k in split]
         rng.shuffle(edges)
-    return CFGraph(set(names), edges)
+    import warnings
+    with warnings.catch_warnings():
+        warnings.simplefilter("ignore")
+        g = CFGraph(set(names), edges)
+        for a, b, k in later:
+            if rng.random() < 0.5: g.add_edge(b, a, k)
+            else: g.add_edges([(a, b, k)])
+    return g
 
 def build_impl_divisor(G, D, graph=None, rng=None):
     from chipfiring import CFDivisor
